@@ -198,6 +198,58 @@ def run_coq_shards(items, header=HEADER, tag='cases', per_shard=None, extra_q=''
     return res
 
 
+def run_coq_strings(items, header=HEADER, tag='str'):
+    """items: list of (definitions_text, [expr of type list string, ...]).  Returns for each item the list of
+    string lists, evaluated by vm_compute in sharded coqc runs (diagnostics / projections)."""
+    os.makedirs(WORK, exist_ok=True)
+    n = len(items)
+    if n == 0:
+        return []
+    nshards = min(NPROC, n)
+    shards = [[] for _ in range(nshards)]
+    for i, it in enumerate(items):
+        shards[i % nshards].append((i, it))
+    pid = os.getpid()
+
+    def run(si):
+        fn = os.path.join(WORK, '%s_%d_%d.v' % (tag, pid, si))
+        with open(fn, 'w') as fh:
+            fh.write('Set Printing Width 10000000.\nSet Printing Depth 10000000.\n' + header)
+            for (i, (defs, exprs)) in shards[si]:
+                fh.write(defs + '\n')
+                for e in exprs:
+                    fh.write('Eval vm_compute in (String.concat " " (%s)).\n' % e)
+        p = subprocess.run('timeout 1500 coqc -noglob -Q %s/theories Join %s' % (COQ, fn), shell=True,
+                           stdout=subprocess.PIPE, stderr=subprocess.STDOUT, text=True)
+        for ext in ('.v', '.vo', '.vok', '.vos', '.glob'):
+            try:
+                os.unlink(fn[:-2] + ext)
+            except OSError:
+                pass
+        if p.returncode != 0:
+            raise RuntimeError('coqc failed (strings):\n%s' % p.stdout[-3000:])
+        found = re.findall(r'= "((?:[^"]|"")*)"\s*:\s*string', p.stdout)
+        want = sum(len(ex) for (_, (_, ex)) in shards[si])
+        if len(found) != want:
+            raise RuntimeError('could not parse coqc string output (%d vs %d)' % (len(found), want))
+        out, k = [], 0
+        for (i, (_, exprs)) in shards[si]:
+            vals = []
+            for _ in exprs:
+                txt = re.sub(r'\s+', ' ', found[k]).replace('""', '"')
+                vals.append(txt.split(' ') if txt else [])
+                k += 1
+            out.append((i, vals))
+        return out
+
+    res = [None] * n
+    with ThreadPoolExecutor(max_workers=NPROC) as ex:
+        for part in ex.map(run, range(nshards)):
+            for (i, v) in part:
+                res[i] = v
+    return res
+
+
 def coq_eval_strings(defs, expr, header=HEADER):
     """Evaluate one expression of type list string and return the strings (diagnostics only)."""
     os.makedirs(WORK, exist_ok=True)
